@@ -110,27 +110,28 @@ Definition enc_result (r : res graph) : sx :=
   | OutOfFuel => SL [SB sym_fuel]
   end.
 
+(* a case is one universe: (oracles ((root table)...)); one result per root *)
+Definition per_root {A} (f : table -> vkey -> A) (enc : A -> sx) (orc : sx) (c : sx) : sx :=
+  match c with
+  | SL [r; tab] =>
+      match dec_vk r, dec_table tab orc with
+      | Some root, Some t => enc (f t root)
+      | _, _ => badcase
+      end
+  | _ => badcase
+  end.
+
 Definition run_Pypi (kind : bytes) (a : sx) : option sx :=
   if bytes_eqb kind [112;121;112;105] (* pypi *) then
     Some (match a with
-          | SL [r; tab; orc] =>
-              match dec_vk r, dec_table tab orc with
-              | Some root, Some t => enc_result (tab_resolve t root)
-              | _, _ => badcase
-              end
+          | SL [orc; SL cases] => SL (map (per_root tab_resolve enc_result orc) cases)
           | _ => badcase
           end)
   else if bytes_eqb kind [112;121;112;105;95;115;116;97;116;115] (* pypi_stats: number of backtracks, model only *) then
     Some (match a with
-          | SL [r; tab; orc] =>
-              match dec_vk r, dec_table tab orc with
-              | Some root, Some t =>
-                  match tab_backtracks t root max_rounds_fuel with
-                  | Ok n => SI (Z.of_nat n)
-                  | _ => SI (-1)
-                  end
-              | _, _ => badcase
-              end
+          | SL [orc; SL cases] =>
+              SL (map (per_root (fun t root => tab_backtracks t root max_rounds_fuel)
+                                (fun r => match r with Ok n => SI (Z.of_nat n) | _ => SI (-1) end) orc) cases)
           | _ => badcase
           end)
   else None.
